@@ -339,6 +339,18 @@ def symmetry_stream(rep, r, n):
             p[m] = 1e6
             mx, my = f(p, mask=m)
             mx0, my0 = f(img, mask=m)
+            # the Gaussian fitters take an error map: what it holds at MASKED pixels is as irrelevant as the data there (seed C17-r11)
+            ex_, ey_, ex2, ey2 = mx0, my0, mx0, my0
+            if f in (centroid_1dg, centroid_2dg):
+                m2 = m.copy()
+                m2[2, 3] = m2[ny - 3, 1] = True
+                e1 = np.full(img.shape, 1.0) + 0.01 * xx
+                e2 = e1.copy()
+                e2[m2] = 500.0
+                p2 = img.copy()
+                p2[m2] = 1e5
+                ex_, ey_ = f(img, error=e1, mask=m2)
+                ex2, ey2 = f(p2, error=e2, mask=m2)
         rep.case(('sym', f.__name__, img.tobytes()), True, kind=f'symmetry:{f.__name__}')
         rep.probe_only += 1
         tol = 1e-6 if f in (centroid_1dg, centroid_2dg) else 1e-9
@@ -347,7 +359,8 @@ def symmetry_stream(rep, r, n):
                   ('transpose', close(tx, y, tol) and close(ty, x, tol)),
                   ('rescale', close(kx, x, tol) and close(ky, y, tol)),
                   ('rescale-extreme', all(close(e_[0], x, tol) and close(e_[1], y, tol) for e_ in ex)),
-                  ('mask-blind', close(mx, mx0, tol) and close(my, my0, tol))]
+                  ('mask-blind', close(mx, mx0, tol) and close(my, my0, tol)),
+                  ('mask-blind-error', close(ex_, ex2, tol) and close(ey_, ey2, tol))]
         for name, ok in checks:
             if not ok:
                 rep.violation(f'centroid-{name}:{f.__name__}', f'{f.__name__} violates {name} on a point-symmetric source '
